@@ -381,7 +381,7 @@ Lemma fold_upd_member l : forall m,
   match last_opt l with
   | None => m
   | Some u => mkMember (m_type m) (m_ref m) (m_role m) (u_ver u) (u_cs u) (u_lat u) (u_lon u)
-                       (flipped (m_orient m) (length (filter u_rev l)))
+                       (flipped (m_orient m) (length (filter u_rev l))) (m_nodes m)
   end.
 Proof.
   induction l as [|u r IH] using rev_ind; intro m; [reflexivity|].
@@ -391,18 +391,20 @@ Proof.
   assert (Hor : m_orient (match last_opt r with
                           | None => m
                           | Some u0 => mkMember (m_type m) (m_ref m) (m_role m) (u_ver u0) (u_cs u0)
-                                         (u_lat u0) (u_lon u0) (flipped (m_orient m) k)
+                                         (u_lat u0) (u_lon u0) (flipped (m_orient m) k) (m_nodes m)
                           end) = flipped (m_orient m) k).
   { destruct (last_opt r) eqn:El; [reflexivity|]. subst k.
     destruct r as [|a r'] using rev_ind; [reflexivity|]. rewrite last_opt_app in El. discriminate. }
   unfold upd_member. rewrite Hor.
-  assert (Hty : forall x, m_type (match last_opt r with None => m | Some u0 => mkMember (m_type m) (m_ref m) (m_role m) (u_ver u0) (u_cs u0) (u_lat u0) (u_lon u0) x end) = m_type m)
+  assert (Hty : forall x, m_type (match last_opt r with None => m | Some u0 => mkMember (m_type m) (m_ref m) (m_role m) (u_ver u0) (u_cs u0) (u_lat u0) (u_lon u0) x (m_nodes m) end) = m_type m)
     by (intro; destruct (last_opt r); reflexivity).
-  assert (Hrf : forall x, m_ref (match last_opt r with None => m | Some u0 => mkMember (m_type m) (m_ref m) (m_role m) (u_ver u0) (u_cs u0) (u_lat u0) (u_lon u0) x end) = m_ref m)
+  assert (Hrf : forall x, m_ref (match last_opt r with None => m | Some u0 => mkMember (m_type m) (m_ref m) (m_role m) (u_ver u0) (u_cs u0) (u_lat u0) (u_lon u0) x (m_nodes m) end) = m_ref m)
     by (intro; destruct (last_opt r); reflexivity).
-  assert (Hro : forall x, m_role (match last_opt r with None => m | Some u0 => mkMember (m_type m) (m_ref m) (m_role m) (u_ver u0) (u_cs u0) (u_lat u0) (u_lon u0) x end) = m_role m)
+  assert (Hro : forall x, m_role (match last_opt r with None => m | Some u0 => mkMember (m_type m) (m_ref m) (m_role m) (u_ver u0) (u_cs u0) (u_lat u0) (u_lon u0) x (m_nodes m) end) = m_role m)
     by (intro; destruct (last_opt r); reflexivity).
-  rewrite Hty, Hrf, Hro. f_equal.
+  assert (Hnd : forall x, m_nodes (match last_opt r with None => m | Some u0 => mkMember (m_type m) (m_ref m) (m_role m) (u_ver u0) (u_cs u0) (u_lat u0) (u_lon u0) x (m_nodes m) end) = m_nodes m)
+    by (intro; destruct (last_opt r); reflexivity).
+  rewrite Hty, Hrf, Hro, Hnd. f_equal.
   destruct (u_rev u); cbn [length].
   - rewrite Nat.add_1_r. apply flipped_succ.
   - rewrite Nat.add_0_r. reflexivity.
